@@ -194,5 +194,142 @@ def _error_set_first(f):
     return bool(ws) and all(f.cfg.dominates(ws[0], w) for w in wakes)
 
 
+TX = re.compile(r"^quinn_proto::connection::(streams::(send::)?SendStream::<'\w+>::(write|write_chunks|finish|reset)|"
+                r"streams::(recv::)?RecvStream::<'\w+>::stop|streams::recv::Chunks::<'\w+>::finalize|"
+                r"datagrams::Datagrams::<'\w+>::send|Connection::(close|set_max_concurrent_streams|set_receive_window|set_send_window))$")
+
+
+def rule_tx_wakes(ctx, db):
+    """R4: whoever asks quinn-proto to queue something for transmission wakes the connection worker."""
+    R = ctx.rule
+    R("R4", "MPT(may)", "every function that makes quinn-proto queue data or a control frame for transmission (stream write / "
+      "finish / reset / stop, read credit, datagram send, close, limit updates) wakes the connection worker — itself or in "
+      "the helper it hands its closure to: otherwise the bytes wait for an unrelated event")
+    if not any(f.id.startswith("compio_quic::") for f in db.fns.values()):
+        return
+    wake = Summaries(db, r"ConnectionState::wake$", depth=3)
+    n = 0
+    for f in db.fns.values():
+        if not f.id.startswith("compio_quic::"):
+            continue
+        tx = [(bb, t) for bb, t in f.calls() if TX.match(t.get("rfn") or t.get("fn") or "")]
+        if not tx:
+            continue
+        n += 1
+        ok = wake.may(f)
+        how = "wakes the worker itself"
+        if not ok and f.kind == "closure":
+            # the closure is handed to a helper (execute_poll_write / execute_poll_read) that performs the call and wakes
+            par = db.fns.get(f.parent) if f.parent else None
+            seen = set()
+            while par is not None and par.id not in seen and not ok:
+                seen.add(par.id)
+                for bb, t in par.calls():
+                    for a in t.get("args", []):
+                        pl = op_place(a)
+                        if pl is None:
+                            continue
+                        for r in par.cfg.origins(pl["l"]):
+                            if r[0] == "agg" and r[3]["r"].get("def") == f.id or (r[0] == "agg" and r[3]["r"].get("x") in ("closure",) and
+                                                                                 _encloses(db, r[3]["r"].get("def"), f.id)):
+                                if any(wake.may(db.body_of(g)) for g in db.callee_fns(t)):
+                                    ok = True
+                                    how = "is run by " + (t.get("fn") or "?") + ", which wakes the worker"
+                par = db.fns.get(par.parent) if par.parent else None
+        names = sorted({(t.get("rfn") or t.get("fn")).rsplit("::", 1)[-1] for _, t in tx})
+        ctx.ob("R4", "tx-wakes-worker:%s[%s]" % (db.root_fn(f).name, ",".join(names)), ok,
+               how if ok else "queues %s for transmission but no wake of the connection worker follows" % ",".join(names), f)
+        # must-form: where the function wakes itself, the wake lies on EVERY path from the success of the call to a return
+        wb = set(wake.event_blocks(f, "may"))
+        if wb:
+            for bb, t in tx:
+                nm = (t.get("rfn") or t.get("fn")).rsplit("::", 1)[-1]
+                starts = _success_starts(f, bb, t)
+                leak = any(any(r in f.cfg.reach_from_block(s0, avoid=wb) for r in f.cfg.returns) for s0 in starts if s0 not in wb)
+                ctx.ob("R4", "tx-success-always-wakes:%s[%s]" % (db.root_fn(f).name, nm), not leak,
+                       "from the successful `%s` (or its `should_transmit()` answer) every path to a return passes the wake" % nm
+                       if not leak else "a path from the successful `%s` reaches a return without waking the connection worker" % nm, f)
+    ctx.floor("R4", "functions that queue something for transmission", n, 8)
+
+
+def _success_starts(f, bb, t):
+    """Blocks from which the wake is owed: the `should_transmit() == true` target when the call's result is asked that
+    question, else the Ok/Continue targets of switches on the call's result, else the call's own successor."""
+    from ..util import discr_edges, bool_edges
+    st = calls(f, r"ShouldTransmit::should_transmit$")
+    dst = t["dst"]["l"]
+    for sb, stt in st:
+        pl = op_place(stt["args"][0])
+        if pl is not None and dst in data_deps(f, pl["l"])[0] | {pl["l"]}:
+            return [tt for (_, tt, ft) in bool_edges(f, sb) if tt is not None]
+    from ..util import flow_call
+
+    def through(tt):
+        # the Ok/Err-ness of a Result survives map_err / `?`; follow it
+        if call_matches(tt, r"Result::<T, E>::map_err$|Try::branch$|Result::<T, E>::inspect_err$|Result::<T, E>::or_else$"):
+            return 0
+        return flow_call(tt)
+    # locals holding the call's result itself (whole-value copies / moves and the adaptors above; NOT its payload fields)
+    same = {dst}
+    changed = True
+    while changed:
+        changed = False
+        for b in f.blocks:
+            for st_ in b["st"]:
+                if "a" not in st_ or st_["a"]["p"]:
+                    continue
+                r = st_["r"]
+                if r.get("k") == "use" and r.get("ops"):
+                    pl = op_place(r["ops"][0])
+                    if pl is not None and not pl["p"] and pl["l"] in same and st_["a"]["l"] not in same:
+                        same.add(st_["a"]["l"])
+                        changed = True
+            tt = b["t"]
+            if tt["k"] == "call" and through(tt) is not None and tt.get("args"):
+                pl = op_place(tt["args"][0])
+                if pl is not None and not pl["p"] and pl["l"] in same and tt["dst"]["l"] not in same:
+                    same.add(tt["dst"]["l"])
+                    changed = True
+    discr = {}
+    for b in f.blocks:
+        for st_ in b["st"]:
+            r = st_.get("r", {})
+            if r.get("k") == "discr" and "pl" in r and not r["pl"]["p"] and r["pl"]["l"] in same:
+                discr[st_["a"]["l"]] = True
+    outs = []
+    for b in f.blocks:
+        tt = b["t"]
+        if tt["k"] == "switch":
+            pl = op_place(tt["op"])
+            if pl is not None and pl["l"] in discr:
+                tg = dict(tt["tg"])
+                if "0" in tg:
+                    outs.append(tg["0"])
+    # `if call().is_ok() { .. }`
+    for cb, ct in calls(f, r"Result::<T, E>::is_ok$"):
+        pl = op_place(ct["args"][0])
+        if pl is not None and (pl["l"] in same or same & data_deps(f, pl["l"])[0]):
+            outs.extend(tt_ for (_, tt_, ft_) in bool_edges(f, cb) if tt_ is not None)
+    if outs:
+        return outs
+    return [x for x in f.cfg.succ[bb]]
+
+
+def _encloses(db, outer_id, inner_id):
+    x = db.fns.get(inner_id)
+    seen = set()
+    while x is not None and x.id not in seen:
+        if x.id == outer_id:
+            return True
+        seen.add(x.id)
+        x = db.fns.get(x.parent) if x.parent else None
+    return False
+
+
+def rules_all(ctx, db):
+    rules(ctx, db)
+    rule_tx_wakes(ctx, db)
+
+
 def check(tier):
-    return engine.run("C16", tier, rules, NOT_DECIDED, [])
+    return engine.run("C16", tier, rules_all, NOT_DECIDED, [])
